@@ -298,9 +298,36 @@ type c18Stats struct {
 	Inputs, Calls, Exempt int
 	Fails                 []c18Fail
 	seen                  map[string]bool
+	deferred              []c18Deferred
+	draining              bool
 }
 
+// Inputs whose iteration count may have been changed are kept for the end of the sweep (runDeferred): a decoder that is
+// still stretching a password when its deadline passes goes on allocating in the background, and the allocation counter
+// is process-wide - every measurement taken while such a call is alive would be polluted by it.
 func (s *c18Stats) run(it *corpusItem, mut string, b []byte, exempt bool) {
+	if exempt && !s.draining {
+		s.deferred = append(s.deferred, c18Deferred{it, mut, append([]byte(nil), b...)})
+		return
+	}
+	s.runNow(it, mut, b, exempt)
+}
+
+func (s *c18Stats) runDeferred() {
+	s.draining = true
+	for _, d := range s.deferred {
+		s.runNow(d.it, d.mut, d.b, true)
+	}
+	s.deferred = nil
+}
+
+type c18Deferred struct {
+	it  *corpusItem
+	mut string
+	b   []byte
+}
+
+func (s *c18Stats) runNow(it *corpusItem, mut string, b []byte, exempt bool) {
 	s.Inputs++
 	for name, fn := range decodersFor(it.Class) {
 		s.Calls++
@@ -656,6 +683,7 @@ func c18run(args []string) error {
 		}
 		sf.Close()
 	}
+	st.runDeferred()
 	out := map[string]interface{}{"inputs": st.Inputs, "calls": st.Calls, "exempt_slow": st.Exempt, "fails": st.Fails, "families": perFamily,
 		"items": len(items), "short_strings": nshort}
 	b, _ := json.Marshal(out)
